@@ -79,6 +79,11 @@ def run(rep, tier, seed):
             one(b, cm, nrs, randbits(rnd, rnd.randint(0, 2000)), rnd.choice([L, R]), 'random')
             one(b, cm, nrs, rnd.choice(nrs)['id'] + randbits(rnd, rnd.randint(0, 300)), rnd.choice([L, R]), 'id+random')
         one(b, cm, nrs, '', L, 'empty')
+        if i % 8 == 0:
+            # a rule set without any rule (a context being provisioned): every frame gets the rule-ID error
+            cm0 = ContextManager(Context(id='c0', description='', interface_id='i', parser_id=stack, ruleset=[]))
+            for s0 in ('', randbits(rnd, rnd.randint(1, 60)), rnd.choice(nrs)['id']):
+                one(b, cm0, [], s0, rnd.choice([L, R]), 'empty-rule-set')
         if i % 5 == 0:
             # a rule of fragmentation nature shares the id space: a frame that starts with its id is dispatched to it by id alone;
             # it has no descriptors, so everything after the id comes back
